@@ -1076,8 +1076,16 @@ class C17(BtProp):
         total = {}     # leaf -> updates overall
         entry = {}     # leaf -> clock at initialise
         prevW = {}
+        # configurations that legitimately raise out of update(): an empty cycling StatusQueue (pop from an empty
+        # list) and SuccessEveryN(0) (modulo by zero); any other IndexError / ValueError / AssertionError /
+        # ZeroDivisionError escaping a tick of stock behaviours breaks the documented rules
+        may_raise = any(n[0] == "L" and ((n[2][0] == "sq" and str(n[2][1]) in ("", "-") and str(n[2][2]) == "-")
+                                         or (n[2][0] == "sen" and int(n[2][1]) == 0)) for n in sh.node.values())
         for o in obs:
             if not o.ok:
+                if o.err == "internal" and o.op.startswith("tick") and not may_raise:
+                    out.append(viol("stock-raised", "`%s` raised an IndexError / ValueError / AssertionError / "
+                                    "ZeroDivisionError out of the tick" % o.op[:40]))
                 break
             if o.op.startswith("tick"):
                 now = 0
